@@ -657,7 +657,9 @@ impl Prop for C15 {
             let mut stale = String::new();
             for m in c.ws.metas.iter().take(2) {
                 for o in m.ops.iter().take(2) {
-                    stale.push_str(&format!(".pc/{}/{}\n", m.name, o.target));
+                    if o.fail_reason.as_deref() != Some("target-is-directory") {
+                        stale.push_str(&format!(".pc/{}/{}\n", m.name, o.target));
+                    }
                 }
             }
             c.opts.backup = "always".into();
